@@ -151,19 +151,23 @@ def tag_rec(c, facts, R, prefix_desc=''):
         ctx = FnCtx(fn)
         # map binding hid -> (variant, field)
         bound = {}
+        guarded = set()      # bindings of a match arm with a guard: the arm does not cover the whole variant
         for e, anc in hir_walk(fn.hir['body']):
             pats = []
             if e['k'] == 'match':
-                pats = [a['pat'] for a in e['arms']]
+                pats = [(a['pat'], a['guard'] is not None and e.get('src') == 'Normal') for a in e['arms']]
             elif e['k'] == 'let':
-                pats = [e['pat']]
-            for p in pats:
+                pats = [(e['pat'], False)]
+            for p, g in pats:
                 for hid, path in pattern_bindings(p):
                     if path and path[0][0] in nested:
                         # path = ((Variant, field), (FuncTag, field))...: keep outermost Tag variant + innermost field
                         # (bindings under Some(..)/Continue(..) of desugared loops and `?` are not Tag variants)
                         bound[hid] = (path[0][0], path[-1][1])
+                        if g:
+                            guarded.add(hid)
         covered = {}
+        only_guarded = {}
         for e, anc in hir_walk(fn.hir['body']):
             if e['k'] == 'call' and callee_id(e) == fn.id:
                 for a in e['args']:
@@ -171,6 +175,12 @@ def tag_rec(c, facts, R, prefix_desc=''):
                     if r in bound:
                         v, fld = bound[r]
                         covered.setdefault(v, set()).add(fld)
+                        only_guarded.setdefault((v, fld), []).append(r in guarded)
+                        # the payload bound whole (`Tag::Func(func)`) and its fields selected in place
+                        # (`reduce(sets, &func.range)`, `for b in func.bindings.iter() { reduce(sets, b) }`)
+                        fr = field_root(ctx, a, set(bound))
+                        if fr and fr[0] == r and fr[1] and fr[1] in nested.get(v, ()):
+                            covered[v].add(fr[1])
         # a variant's payload handed as a whole to a helper of the module (`Tag::Func(func) => occurs_in_func(a, func)`):
         # the fields the helper hands back to this function are recursed on
         mod = fn.qname.rsplit('::', 1)[0]
@@ -206,7 +216,11 @@ def tag_rec(c, facts, R, prefix_desc=''):
                 want = {fields[0]}
             missing = want - got
             inst = {'fn': fn.qname, 'variant': v, 'nested_fields': sorted(want), 'recursed_on': sorted(got)}
-            if not missing:
+            cond = sorted(f for f in want if only_guarded.get((v, f)) and all(only_guarded[(v, f)]))
+            if not missing and cond:
+                c.bad(R, '%s:variant=%s:recursion-under-a-guard=%s' % (short, v, ','.join(cond)),
+                      '%s recurses into Tag::%s (%s) only in a match arm with a guard: the values of the variant that fail the guard take another arm and are not descended into' % (fn.qname, v, ','.join(cond)), **inst)
+            elif not missing:
                 c.ok(R, inst)
                 c.sample(inst)
             else:
@@ -515,6 +529,54 @@ def var_namespace(c, facts, R):
         c.ok(R, {'Seq::next': 'TagId { loc: self.loc, n }'})
     else:
         c.bad(R, 'tagid-without-locator', 'Seq::next no longer builds TagId from the sequence locator and counter')
+    # ... and the locator is part of the variable's identity
+    identity_fields(c, facts, R, 'oal_compiler::inference::tag::TagId', 'TagId')
+
+
+def identity_fields(c, facts, R, adt_q, short):
+    """the PartialEq and Hash implementations of an identity type read every field of the type (the derived ones do):
+    an identity that leaves a component out merges things the rest of the compiler keeps apart"""
+    import mirflow as MF
+    adt = facts.adt(adt_q)
+    if not adt or not adt.get('variants'):
+        c.bad(R, 'anchor-missing:' + adt_q, 'type %s not found' % adt_q)
+        return
+    fields = [f for f, _ in adt['variants'][0]['fields']]
+    n = 0
+    for q, l in sorted(facts.by_qname.items()):
+        if ('%s as ' % adt['name']) not in q or not (q.endswith('PartialEq>::eq') or q.endswith('Hash>::hash')):
+            continue
+        fn = l[0]
+        if not fn.mir:
+            continue
+        n += 1
+        read = set()
+        for g in [fn] + list(facts.closures_of(fn)):
+            if not g.mir:
+                continue
+            for b, blk in g.blocks():
+                places = []
+                for st in blk['stmts']:
+                    if st['s'] == 'assign':
+                        rv = st['rv']
+                        if rv['r'] in ('ref', 'rawptr', 'discr'):
+                            places.append(rv['place'])
+                        places += [o for o in MF.operands_of_rvalue(rv) if 'l' in o]
+                t = blk['term']
+                if t['t'] in ('call', 'callfield'):
+                    places += [a for a in t['args'] if 'l' in a]
+                for pl in places:
+                    if pl['l'] in (1, 2):
+                        fp = MF.field_path(pl)
+                        if fp:
+                            read.add(fp[0])
+        missing = [f for f in fields if f not in read and str(fields.index(f)) not in read]
+        inst = {'impl': q.split('::', 1)[1], 'fields': fields, 'read': sorted(read)}
+        if missing:
+            c.bad(R, '%s-identity-ignores:%s:%s' % (short, q.rsplit('::', 1)[-1], ','.join(missing)), '%s does not look at the field(s) %s of %s: two values that differ only there are one' % (q.split('::', 1)[1], missing, adt['name']), **inst)
+        else:
+            c.ok(R, inst)
+    c.floor(R, 'identity impls of %s (PartialEq, Hash)' % short, n, 2)
 
 
 def identity_first(c, facts, R):
